@@ -847,8 +847,9 @@ std::string sqf::parser::preprocessor::impl_default::instance::parse_ppinstructi
                         if (!arg.empty())
                         {
                             args.emplace_back(std::move(arg));
-                            arg_start_index = arg_index + 1;
                         }
+                        // Always move on: an empty parameter name ("#define F(a,,b)") must not stall the scan
+                        arg_start_index = arg_index + 1;
                     }
                     // Special magic for '#define macro\'
                     content = (trim(line.substr(line[arg_start_index] == ' ' ? arg_start_index + 1 : arg_start_index)));
